@@ -8,6 +8,8 @@ import XV.Driver.Identity
 import XV.Driver.ContentModel
 import XV.Driver.DtdValid
 import XV.Driver.Trace
+import XV.Driver.Ext
+import XV.Driver.Uri
 open XV.Driver
 
 def main (args : List String) : IO UInt32 := do
@@ -28,5 +30,7 @@ def main (args : List String) : IO UInt32 := do
   | ["ic"] => lineLoop stdin stdout XV.Driver.Identity.handle; return 0
   | ["trace"] => lineLoop stdin stdout XV.Driver.Trace.handle; return 0
   | ["pool"] => lineLoop stdin stdout XV.Driver.Trace.handlePool; return 0
+  | ["extgate"] => lineLoop stdin stdout XV.Driver.Ext.handle; return 0
+  | ["uri"] => lineLoop stdin stdout XV.Driver.Uri.handle; return 0
   | ["utf8spec"] => lineLoop stdin stdout XV.Driver.Utf8.handleSpec; return 0
   | _ => IO.eprintln "usage: xvdriver <area>"; return 2
